@@ -39,6 +39,17 @@ DOC_EXCEPTIONS = {
 WIDTH = {"Unsigned32": 4, "Integer32": 4, "Enumerated": 4, "Unsigned64": 8, "Time": 4}
 
 
+def _tz(h, m=0):
+    return datetime.timezone(datetime.timedelta(hours=h, minutes=m))
+
+
+AWARE_INSTANTS = [datetime.datetime(2020, 1, 1, 12, 0, 0, tzinfo=datetime.timezone.utc),
+                  datetime.datetime(2020, 1, 1, 12, 0, 0, tzinfo=_tz(2)),
+                  datetime.datetime(2020, 1, 1, 12, 0, 0, tzinfo=_tz(-5, -30)),
+                  datetime.datetime(1999, 12, 31, 23, 59, 59, tzinfo=_tz(14)),
+                  datetime.datetime(2030, 6, 15, 0, 0, 1, tzinfo=_tz(-12))]
+
+
 class Junk:
     def __repr__(self):
         return "<Junk object>"
@@ -213,6 +224,13 @@ def part_classes(rep, arg):
             for v, d in absavp.scalar_domain(e, wide):
                 judge(rep, e, klass, v, d, "in")
                 n += 1
+            if e["type"] == "Time":
+                # instants given with a UTC offset: rejected, or encoded as that instant (never as the wall-clock
+                # reading with the offset dropped)
+                for v in AWARE_INSTANTS:
+                    secs = int((v - datetime.datetime(1900, 1, 1, tzinfo=datetime.timezone.utc)).total_seconds())
+                    judge(rep, e, klass, v, secs.to_bytes(4, "big"), "in")
+                    n += 1
         for v in out_of_domain(e):
             judge(rep, e, klass, v, None, "out")
             n += 1
@@ -292,6 +310,23 @@ def dictionary_facts(rep):
                 diffs.append(f"decoding dispatches to {type(back[0]).__name__ if back else None}")
         except BaseException as ex:  # noqa
             diffs.append(f"minimal instance cannot be built/decoded: {type(ex).__name__}: {ex}")
+        # the dictionary is a function of the *pair*: the same code under another Vendor-ID (or none) that the
+        # dictionary does not define is nobody's AVP and decodes as a generic one, data untouched
+        try:
+            ab = absavp.minimal(cname).abstract()
+            for other in (99999, 10415, None, 1):
+                if other == e["vendor"] or (other, e["code"]) in absavp.BY_WIRE:
+                    continue
+                n += 1
+                flags = (ab[1] | 0x80) if other is not None else (ab[1] & 0x7f)
+                wire = refcodec.enc_avp((ab[0], flags, other, b"\x00\x00\x00\x01"))
+                back = DiameterAVP.load(wire)
+                if len(back) != 1 or type(back[0]).__name__ != "DiameterAVP" or back[0].dump() != wire:
+                    diffs.append(f"foreign-vendor {other}: code {e['code']} under Vendor-ID {other} decodes as "
+                                 f"{type(back[0]).__name__ if back else None}"
+                                 f"{'' if not back or back[0].dump() == wire else ' and re-encodes differently'}")
+        except BaseException as ex:  # noqa
+            diffs.append(f"foreign-vendor probe raised {type(ex).__name__}: {ex}")
         for d in diffs:
             rep.violation(f"C10:dictionary:identity:{cname}:{d.split(' ')[0]}",
                           f"{cname}: {d} (library vs published dictionary)",
